@@ -96,6 +96,32 @@ def fault_scenario(idx, d, h, cfg, ks):
     return sc
 
 
+def crash_history(rnd, d):
+    """a history for crash points BETWEEN calls: populate + flush, then every write path of the storage adapter on its
+    own between two flushes (single write, removal, append, one-leaf and several-leaf ranges that do not grow the tree
+    - only the batch path -, a growing range, the batch entry point in its undisputed shapes, metadata), in a seeded
+    order, then an unflushed tail"""
+    cap = 1 << d
+    n0 = min(cap - 1, 3 + rnd.randrange(2))
+    h = [{"c": "range", "s": 0, "vs": [rnd.choice([1, 2, 3]) for _ in range(n0)]}, {"c": "flush"}]
+    st2 = rnd.randrange(max(1, n0 - 1))
+    paths = [
+        {"c": "set", "i": rnd.randrange(n0), "v": rnd.choice([5, 9])},
+        {"c": "delete", "i": rnd.randrange(n0)},
+        {"c": "range", "s": rnd.randrange(n0), "vs": [rnd.choice([4, 7])]},
+        {"c": "range", "s": st2, "vs": [rnd.choice([4, 5, 7]), rnd.choice([4, 5, 7])]},
+        {"c": "override", "s": st2, "vs": [rnd.choice([3, 8]), rnd.choice([3, 8])], "rem": []},
+        {"c": "override", "s": 0, "vs": [], "rem": [rnd.randrange(n0)]},
+        {"c": "set_meta", "m": [rnd.randrange(256) for _ in range(rnd.choice([1, 5, 40]))]},
+        {"c": "append", "v": rnd.choice([1, 6])},
+    ]
+    rnd.shuffle(paths)
+    for w in paths:
+        h += [w, {"c": "flush"}]
+    h.append({"c": "set", "i": 0, "v": 11})          # unflushed tail
+    return h
+
+
 def execute(binary, wd, name, scenario):
     sp = os.path.join(wd, f"{name}.scen.ndjson")
     tp = os.path.join(wd, f"{name}.trace.ndjson")
@@ -225,6 +251,21 @@ def run_c16(tier, out, prop="C16"):
             total += len(crow)
             traces += 1
             crashes += sum(1 for r in crow if r["t"] == "crash" and r.get("aborted"))
+        if d <= 5 and (not quick or idx < 3):
+            # crash points BETWEEN calls: the process dies right after the n-th call returned (every n, so also right
+            # after each acknowledged flush); histories made of the adapter's different write paths
+            hb = crash_history(rnd, d)
+            ns = [n for n in range(1, len(hb) + 1) if hb[n - 1]["c"] == "flush" or not quick]
+            bsc = [{"c": "crashrun", "d": d, "path": f"b{idx}_{n}", "cfg": cfg, "crash_at": 0, "abort_after": n, "hist": hb} for n in ns]
+            tp, tb = execute(binary, wd, f"between{idx}", bsc)
+            brow = read_ndjson(tp)
+            res = judge(prop, wd, f"between{idx}", tp, tb, kf_names)
+            if res["depth"] is None or res["depth"] - 1 != len(brow):
+                raise ToolError(f"judge consumed {res['depth']} of {len(brow)} lines for between{idx}")
+            report(out, prop, f"between{idx}", brow, bsc, res, kf_desc)
+            total += len(brow)
+            traces += 1
+            crashes += sum(1 for r in brow if r["t"] == "crash" and r.get("aborted"))
         if idx == 1:
             out.sample({"scenario": "fault enumeration", "history": h, "storage_operations": w, "fault_positions": ks,
                         "first_fired_event": next(({kk: r[kk] for kk in r if kk != "obs"} for r in rows if r.get("fired")), None)})
